@@ -30,7 +30,12 @@ Import ListNotations.
 
 (* ---------------------------------------------------------------- script *)
 
-Inductive outcome := OOk | ORefused | OCut (k : nat) | OGarbage.
+Inductive outcome :=
+| OOk                     (* the origin answers completely (CONNECT: the dial succeeds, a tunnel is set up) *)
+| ORefused                (* the dial fails with an ordinary error (connection refused, no such host) *)
+| OTimeout                (* the dial fails with a timeout: a net.Error that isCloseable() accepts *)
+| OCut (k : nat)
+| OGarbage.
 
 Record resp3 := mkResp3
   { q_status : N;
@@ -43,10 +48,14 @@ Record resp3 := mkResp3
 Record exch3 := mkEx3
   { x_id : N;
     x_head : bool;                 (* HEAD request *)
+    x_connect : bool;              (* CONNECT request (no MITM): handleConnectRequest *)
     x_reqclose : bool;             (* req.Close: Connection: close, or HTTP/1.0 without keep-alive *)
     x_out : outcome;
     x_resp : resp3;
     x_rechunk : list nat }.        (* how the proxy happens to re-chunk what it relays: any list *)
+
+(* the client expects no body whatever the head says *)
+Definition x_nobody (e : exch3) : bool := (x_head e || x_connect e)%bool.
 
 (* ---------------------------------------------------------------- origin bytes *)
 
@@ -121,10 +130,11 @@ Inductive upstream :=
 Definition classify (e : exch3) : upstream :=
   let r := x_resp e in
   match x_out e with
-  | ORefused | OGarbage => UFail
+  | ORefused | OTimeout | OGarbage => UFail
   | OOk => UComplete
   | OCut k =>
-      if k <? q_headlen r then UFail
+      if x_connect e then UComplete      (* not a script: excluded by [wf3] *)
+      else if k <? q_headlen r then UFail
       else if x_head e then UComplete
       else
         let j := k - q_headlen r in
@@ -143,7 +153,8 @@ Definition classify (e : exch3) : upstream :=
 
 Inductive hkind :=
 | H502 (warning : bool) (via_resmod : bool)   (* synthetic 502; Warning present; seen by the response modifier *)
-| HRelay (st : N) (via_resmod : bool).        (* the origin's head *)
+| HRelay (st : N) (via_resmod : bool)         (* the origin's head *)
+| HConnect (via_resmod : bool).               (* 200 to a CONNECT whose dial succeeded; a blind tunnel follows *)
 
 Inductive cframing := CCL (n : nat) | CChunked | CClose | CNone.
 
@@ -172,7 +183,7 @@ Definition chunk_syms (ps : list (list ascii)) : list wsym :=
   flat_map (fun p => WChunk (List.length p) :: map WByte p) ps.
 
 Definition relay_framing (e : exch3) : cframing :=
-  if x_head e then CNone
+  if x_nobody e then CNone
   else match q_framing (x_resp e) with
        | FCL => CCL (List.length (q_body (x_resp e)))
        | FChunked => CChunked
@@ -182,7 +193,8 @@ Definition relay_framing (e : exch3) : cframing :=
 
 Definition asks_close (e : exch3) : bool :=
   (x_reqclose e || q_close (x_resp e)
-   || (negb (x_head e) && match q_framing (x_resp e) with FCloseDelimited => true | _ => false end))%bool.
+   || (negb (x_nobody e) && match q_framing (x_resp e) with FCloseDelimited => true | _ => false end)
+   || x_connect e)%bool.     (* after a successful CONNECT the connection is a tunnel: no further proxy responses *)
 
 Definition body_syms (e : exch3) (data : list ascii) (terminated : bool) : list wsym :=
   match relay_framing e with
@@ -191,18 +203,24 @@ Definition body_syms (e : exch3) (data : list ascii) (terminated : bool) : list 
   | CNone => []
   end.
 
+Definition relay_kind (e : exch3) : hkind :=
+  if x_connect e then HConnect true else HRelay (q_status (x_resp e)) true.
+
 (* Proxy.handle: (symbols written, connection closed afterwards) *)
 Definition handle3 (close_on_write_error : bool) (e : exch3) : list wsym * bool :=
   match classify e with
   | UFail =>
       (* proxy.go:504-508: 502 + Warning, then the response modifier, Content-Length: 0 *)
-      ([WHead (mkHead (H502 true true) (x_id e) (if x_head e then CNone else CCL 0))], x_reqclose e)
+      (* failed CONNECT (proxy.go handleConnectRequest): same 502, and the loop goes on
+         whatever the dial error was *)
+      ([WHead (mkHead (H502 true true) (x_id e) (if x_head e then CNone else CCL 0))],
+       if x_connect e then false else x_reqclose e)
   | UComplete =>
-      (WHead (mkHead (HRelay (q_status (x_resp e)) true) (x_id e) (relay_framing e))
+      (WHead (mkHead (relay_kind e) (x_id e) (relay_framing e))
          :: body_syms e (q_body (x_resp e)) true,
        asks_close e)
   | UPartial d =>
-      (WHead (mkHead (HRelay (q_status (x_resp e)) true) (x_id e) (relay_framing e))
+      (WHead (mkHead (relay_kind e) (x_id e) (relay_framing e))
          :: body_syms e d false,
        (asks_close e || close_on_write_error)%bool)
   end.
@@ -295,7 +313,7 @@ Definition client_parse (ms : list bool) (stream : list tagged) (closed : bool) 
 
 Definition client_view (fx : bool) (es : list exch3) : list presp * bool :=
   let '(st, c) := conn_stream fx 0 es in
-  (client_parse (map x_head es) st c, c).
+  (client_parse (map x_nobody es) st c, c).
 
 (* ---------------------------------------------------------------- specification *)
 
@@ -311,7 +329,7 @@ Fixpoint served3 (es : list exch3) : list exch3 :=
 Definition expected (i : nat) (e : exch3) : presp :=
   let hd := match classify e with
             | UFail => mkHead (H502 true true) (x_id e) (if x_head e then CNone else CCL 0)
-            | _ => mkHead (HRelay (q_status (x_resp e)) true) (x_id e) (relay_framing e)
+            | _ => mkHead (relay_kind e) (x_id e) (relay_framing e)
             end in
   let '(data, st) :=
     match classify e with
@@ -339,10 +357,12 @@ Definition spec_view (es : list exch3) : list presp * bool :=
    responses (a close-delimited body has no detectable end by construction);
    chunk sizes are recorded consistently; the head length is positive. *)
 Definition wf3 (e : exch3) : bool :=
-  match x_out e, q_framing (x_resp e) with
-  | OCut _, FCloseDelimited => false
-  | _, _ => true
-  end.
+  (match x_out e, q_framing (x_resp e) with
+   | OCut _, FCloseDelimited => false
+   | _, _ => true
+   end
+   && negb (x_connect e && (x_head e || x_reqclose e
+                            || match x_out e with OCut _ | OGarbage => true | _ => false end)))%bool.
 
 (* ---------------------------------------------------------------- observation and oracle *)
 
@@ -366,6 +386,7 @@ Definition project (p : presp) : oresp :=
   match p_head p with
   | Some (mkHead (H502 w v) id _) => mkO 502 None w (if v then Some (502%N, w) else None) (p_body p) (p_state p)
   | Some (mkHead (HRelay st v) id _) => mkO st (Some id) false (if v then Some (st, false) else None) (p_body p) (p_state p)
+  | Some (mkHead (HConnect v) id _) => mkO 200 None false (if v then Some (200%N, false) else None) (p_body p) (p_state p)
   | None => mkO 0 None false None (p_body p) (p_state p)
   end.
 
@@ -384,10 +405,99 @@ Definition oresp_eqb (a b : oresp) : bool :=
    && stamp_eqb (o_resmod a) (o_resmod b) && str_eqb (o_body a) (o_body b)
    && state_eqb (o_state a) (o_state b))%bool.
 
+(* ---------------------------------------------------------------- the Warning header *)
+
+Definition DQ : ascii := "034".
+Definition BS : ascii := "092".
+Definition SP : ascii := " ".
+
+Definition qdtext (c : ascii) : bool :=
+  let n := nat_of_ascii c in
+  ((n =? 9) || ((32 <=? n) && negb (n =? 34) && negb (n =? 92) && negb (n =? 127)))%bool.
+
+(* what may follow a backslash: HTAB / SP / VCHAR / obs-text *)
+Definition qpchar (c : ascii) : bool :=
+  let n := nat_of_ascii c in ((n =? 9) || ((32 <=? n) && negb (n =? 127)))%bool.
+
+(* after the opening quote: qdtext and quoted-pairs up to the closing quote; returns what follows it *)
+Fixpoint scan_qs (esc : bool) (x : list ascii) : option (list ascii) :=
+  match x with
+  | [] => None
+  | c :: x' =>
+      if esc then (if qpchar c then scan_qs false x' else None)
+      else if Ascii.eqb c DQ then Some x'
+      else if Ascii.eqb c BS then scan_qs true x'
+      else if qdtext c then scan_qs false x' else None
+  end.
+
+Definition is_digit (c : ascii) : bool := let n := nat_of_ascii c in ((48 <=? n) && (n <=? 57))%bool.
+
+Fixpoint span_agent (x : list ascii) : list ascii * list ascii :=
+  match x with
+  | c :: x' => if (Ascii.eqb c SP || negb (qpchar c))%bool then ([], x)
+               else let '(a, r) := span_agent x' in (c :: a, r)
+  | [] => ([], [])
+  end.
+
+(* RFC 7234 5.5: warn-code SP warn-agent SP warn-text [ SP warn-date ],
+   warn-text and warn-date quoted strings *)
+Definition warning_ok (v : list ascii) : bool :=
+  match v with
+  | d1 :: d2 :: d3 :: s1 :: rest =>
+      if (is_digit d1 && is_digit d2 && is_digit d3 && Ascii.eqb s1 SP)%bool then
+        match span_agent rest with
+        | (_ :: _, s2 :: q :: rest2) =>
+            if (Ascii.eqb s2 SP && Ascii.eqb q DQ)%bool then
+              match scan_qs false rest2 with
+              | Some [] => true
+              | Some (s3 :: q2 :: rest3) =>
+                  if (Ascii.eqb s3 SP && Ascii.eqb q2 DQ)%bool then
+                    match scan_qs false rest3 with Some [] => true | _ => false end
+                  else false
+              | _ => false
+              end
+            else false
+        | _ => false
+        end
+      else false
+  | _ => false
+  end.
+
+(* model of fmt's %q on the bytes of an error text: quote and backslash get a
+   backslash, control bytes become \xHH, everything else stands for itself *)
+Definition hex_hi (c : ascii) : ascii := hexdigit (nat_of_ascii c / 16).
+Definition hex_lo (c : ascii) : ascii := hexdigit (nat_of_ascii c mod 16).
+
+Definition quote_char (c : ascii) : list ascii :=
+  if Ascii.eqb c DQ then [BS; DQ]
+  else if Ascii.eqb c BS then [BS; BS]
+  else if qdtext c && negb (nat_of_ascii c =? 9) then [c]
+  else [BS; "x"%char; hex_hi c; hex_lo c].
+
+Definition go_quote (x : list ascii) : list ascii := DQ :: flat_map quote_char x ++ [DQ].
+
+(* proxyutil.Warning: 199 "martian" %q %q *)
+Definition warning_value (errtext date : list ascii) : list ascii :=
+  list_ascii_of_string "199 ""martian"" " ++ go_quote errtext ++ SP :: go_quote date.
+
+(* what the harness reports before projection: all Warning values as received *)
+Record rawresp := mkRaw
+  { w_status : N; w_id : option N; w_warnings : list (list ascii);
+    w_resmod : option (N * bool); w_rbody : list ascii; w_state : pstate }.
+
+(* "carries a Warning header": at least one, and every one is well-formed *)
+Definition observe (r : rawresp) : oresp :=
+  mkO (w_status r) (w_id r)
+      (match w_warnings r with [] => false | _ => forallb warning_ok (w_warnings r) end)
+      (w_resmod r) (w_rbody r) (w_state r).
+
 (* the property oracle: the client saw exactly what the specification allows *)
 Definition c03_ok (es : list exch3) (obs : list oresp * bool) : bool :=
   (forall2b oresp_eqb (map project (fst (spec_view es))) (fst obs)
    && Bool.eqb (snd (spec_view es)) (snd obs))%bool.
+
+Definition c03_ok_raw (es : list exch3) (obs : list rawresp * bool) : bool :=
+  c03_ok es (map observe (fst obs), snd obs).
 
 (* clause-level pieces used by the driver to name what failed *)
 Definition own_tags_only (ps : list presp) : bool :=
